@@ -203,6 +203,10 @@ impl<T: Qcow2IoOps> Qcow2Dev<T> {
         //
         let mut cache_vec = Vec::new();
 
+        // entries whose dirty flag has been cleared for this flush; if the
+        // flush fails they are still dirty
+        let mut flushing = Vec::new();
+
         log::info!("flush caches: count {}", v.len());
 
         //discard first
@@ -216,6 +220,7 @@ impl<T: Qcow2IoOps> Qcow2Dev<T> {
                     // clearing dirty now since cache update won't happen now,
                     // and dirty is only used for flushing cache.
                     e.set_dirty(false);
+                    flushing.push(e);
 
                     match cache.get_offset() {
                         Some(cache_off) => {
@@ -263,7 +268,17 @@ impl<T: Qcow2IoOps> Qcow2Dev<T> {
             }
         }
 
-        futures::future::join_all(f_vec).await;
+        let discard_res = futures::future::join_all(f_vec).await;
+        if let Some(Err(err)) = discard_res.into_iter().find(|r| r.is_err()) {
+            // nothing has been written and the clusters are still new
+            for (_, mut locked_cls) in cluster_map {
+                *locked_cls = false;
+            }
+            for e in flushing {
+                e.set_dirty(true);
+            }
+            return Err(err);
+        }
 
         {
             let mut cls_map = self.new_cluster.write().await;
@@ -287,12 +302,18 @@ impl<T: Qcow2IoOps> Qcow2Dev<T> {
         }
 
         let res = futures::future::join_all(f_vec).await;
-        for r in res {
+        let mut failed = Ok(());
+        for (r, e) in res.into_iter().zip(flushing) {
             if r.is_err() {
                 eprintln!("cache slice write failed {r:?}\n");
-                return r;
+                // the slice didn't reach the disk: it has to be flushed again
+                e.set_dirty(true);
+                if failed.is_ok() {
+                    failed = r;
+                }
             }
         }
+        failed?;
 
         //each cache's read lock drops here
 
@@ -359,7 +380,11 @@ impl<T: Qcow2IoOps> Qcow2Dev<T> {
         while let Some(idx) = rt.pop_dirty_blk_idx(None) {
             let start = idx << self.info.block_size_shift;
             let size = 1 << self.info.block_size_shift;
-            self.flush_table(rt, start, size).await?
+            if let Err(err) = self.flush_table(rt, start, size).await {
+                // keep it queued for the next attempt
+                rt.set_dirty((start >> 3) as usize);
+                return Err(err);
+            }
         }
 
         Ok(())
@@ -384,11 +409,20 @@ impl<T: Qcow2IoOps> Qcow2Dev<T> {
             let start = key_fn((idx as u64) << bs_bits);
             let end = key_fn(((idx + 1) as u64) << bs_bits);
 
-            if self.flush_cache(cache, start, end).await? {
-                // order cache flush and the upper layer table
-                self.call_fsync(0, usize::MAX, 0).await?;
+            let res = async {
+                if self.flush_cache(cache, start, end).await? {
+                    // order cache flush and the upper layer table
+                    self.call_fsync(0, usize::MAX, 0).await?;
+                }
+                self.flush_table(rt, idx << bs_bits, 1 << bs_bits).await
             }
-            self.flush_table(rt, idx << bs_bits, 1 << bs_bits).await?;
+            .await;
+
+            // the block isn't on disk yet: keep it queued for the next flush
+            if res.is_err() {
+                rt.set_dirty(((idx << bs_bits) >> 3) as usize);
+            }
+            res?;
             Ok(false)
         } else {
             // flush cache without holding top table read lock
